@@ -13,6 +13,8 @@ package redblacktree
 //@ ghost field Node.pos int
 //@ ghost field Node.a int
 //@ ghost field Node.b int
+//@ -- colour layer (C07): black height of the subtree rooted at the node, the node itself included (nil counts 0)
+//@ ghost field Node.bh int local
 
 //@ -- strict weak order on the three-way comparator c
 //@ pred SWO(c, w) := (forall x like w, y like w :: (c(x, y) < 0 <==> c(y, x) > 0))
@@ -37,6 +39,18 @@ package redblacktree
 //@     && (forall x like argof(t.Comparator, 0), y like argof(t.Comparator, 0) :: t.Comparator(x, y) == 0 && 0 <= t.rank[x] && t.rank[x] < t.size && t.Comparator(x, t.nodes[t.rank[x]].Key) == 0 ==> t.Comparator(y, t.nodes[t.rank[x]].Key) == 0)
 //@ pred RootBlack(t) := t.Root != nil ==> t.Root.color
 //@ pred Inv(t) := ShapeInv(t) && OrderInv(t) && RootBlack(t)
+//@ -- colour layer (C07), kept apart from Inv: every node's two subtrees have the same black height and a red node has
+//@ -- no red child; with a black root this is the red-black shape (no root-to-leaf path more than twice as long as another)
+//@ pred Blk(y) := y == nil || y.color
+//@ pred HB(y) := ite(y == nil, 0, y.bh)
+//@ pred Col(x) := ite(x.color, 1, 0)
+//@ pred BHok(x) := x.bh == Col(x) + HB(x.Left) && x.bh == Col(x) + HB(x.Right)
+//@ pred RBok(x) := x.color || (Blk(x.Left) && Blk(x.Right))
+//@ -- ... except that the red node v may hang under a red parent
+//@ pred RBex(x, v) := x.color || ((x.Left == v || Blk(x.Left)) && (x.Right == v || Blk(x.Right)))
+//@ pred CInv(t) := forall x like t.Root :: x.tr == t ==> BHok(x) && RBok(x)
+//@ pred CPre(t, v) := !v.color && (forall x like t.Root :: x.tr == t ==> BHok(x) && (x != v.Parent ==> RBok(x)) && (x == v.Parent ==> RBex(x, v)))
+//@ pred Uncle(v) := ite(v.Parent == v.Parent.Parent.Left, v.Parent.Parent.Right, v.Parent.Parent.Left)
 //@ -- abstract view: the ascending entry sequence (KeyAt(i), ValAt(i)), and the finite map Has/Val it denotes
 //@ pred ValAt(t, i) := t.nodes[i].Value
 //@ pred Has(t, k) := 0 <= t.rank[k] && t.rank[k] < t.size && t.Comparator(k, t.nodes[t.rank[k]].Key) == 0
@@ -47,6 +61,7 @@ package redblacktree
 //@   modifies nothing
 //@   at exit: result.n := 0
 //@   ensures [C01 C02 C15 C17] fresh(result) && Inv(result) && result.size == 0 && result.Comparator == comparator
+//@   ensures [C07] internal CInv(result)
 
 //@ func Tree.lookup
 //@   requires Inv(tree)
@@ -87,6 +102,7 @@ package redblacktree
 //@   at exit: tree.n := 0
 //@   at exit: all Node.tr := \x like tree.Root => ite(x.tr == tree, nil, x.tr)
 //@   ensures [C01 C15 C17] Inv(tree) && tree.size == 0 && tree.Comparator == old(tree.Comparator)
+//@   ensures [C07] internal CInv(tree)
 
 //@ func Tree.Left
 //@   requires ShapeInv(tree)
@@ -268,7 +284,9 @@ package redblacktree
 //@   modifies each x like tree.Root where x.tr == tree : x.Left, x.Right, x.Parent, x.a, x.b
 //@   at exit: old(node.Right).a := old(node.a)
 //@   at exit: node.b := old(node.Right.pos) - 1
-//@   ensures Shape(tree) && Same(tree) && SameColours(tree)
+//@   ensures Shape(tree)
+//@   ensures same: Same(tree)
+//@   ensures samecol: SameColours(tree)
 //@   ensures old(node.Right).Left == node && node.Parent == old(node.Right) && old(node.Right).Parent == old(node.Parent) && node.Right == old(node.Right.Left)
 //@     && node.Left == old(node.Left) && old(node.Right).Right == old(node.Right.Right)
 //@   ensures (old(node.Parent) == nil ==> tree.Root == old(node.Right)) && (old(node.Parent) != nil ==> tree.Root == old(tree.Root))
@@ -282,7 +300,9 @@ package redblacktree
 //@   modifies each x like tree.Root where x.tr == tree : x.Left, x.Right, x.Parent, x.a, x.b
 //@   at exit: old(node.Left).b := old(node.b)
 //@   at exit: node.a := old(node.Left.pos) + 1
-//@   ensures Shape(tree) && Same(tree) && SameColours(tree)
+//@   ensures Shape(tree)
+//@   ensures same: Same(tree)
+//@   ensures samecol: SameColours(tree)
 //@   ensures old(node.Left).Right == node && node.Parent == old(node.Left) && old(node.Left).Parent == old(node.Parent) && node.Left == old(node.Left.Right)
 //@     && node.Right == old(node.Right) && old(node.Left).Left == old(node.Left.Left)
 //@   ensures (old(node.Parent) == nil ==> tree.Root == old(node.Left)) && (old(node.Parent) != nil ==> tree.Root == old(tree.Root))
@@ -296,39 +316,64 @@ package redblacktree
 //@ func Tree.insertCase1
 //@   requires Shape(tree) && node.tr == tree && (node.Parent != nil ==> tree.Root.color)
 //@   modifies tree.Root
-//@   modifies each x like tree.Root where x.tr == tree : x.Left, x.Right, x.Parent, x.a, x.b, x.color
-//@   ensures Shape(tree) && Same(tree) && RootBlack(tree)
+//@   modifies each x like tree.Root where x.tr == tree : x.Left, x.Right, x.Parent, x.a, x.b, x.color, x.bh
+//@   ensures Shape(tree)
+//@   ensures same: Same(tree)
+//@   ensures rootblack: RootBlack(tree)
+//@   at exit: if old(node.Parent) == nil then node.bh := old(node.bh) + 1
+//@   focus post:colours* : pre:*, Tree.rotate*#*:same, Tree.rotate*#*:samecol, Tree.rotate*#*:4, Tree.rotate*#*:5, Tree.rotate*#*:others, Tree.rotate*#*:parent, Tree.insertCase*#*:colours, Tree.insertCase*#*:same
+//@   ensures [C07] internal colours: old(CPre(tree, node)) ==> CInv(tree)
 
 //@ func Tree.insertCase2
 //@   requires Shape(tree) && node.tr == tree && node.Parent != nil && tree.Root.color
 //@   modifies tree.Root
-//@   modifies each x like tree.Root where x.tr == tree : x.Left, x.Right, x.Parent, x.a, x.b, x.color
-//@   ensures Shape(tree) && Same(tree) && RootBlack(tree)
+//@   modifies each x like tree.Root where x.tr == tree : x.Left, x.Right, x.Parent, x.a, x.b, x.color, x.bh
+//@   ensures Shape(tree)
+//@   ensures same: Same(tree)
+//@   ensures rootblack: RootBlack(tree)
+//@   focus post:colours* : pre:*, Tree.rotate*#*:same, Tree.rotate*#*:samecol, Tree.rotate*#*:4, Tree.rotate*#*:5, Tree.rotate*#*:others, Tree.rotate*#*:parent, Tree.insertCase*#*:colours, Tree.insertCase*#*:same
+//@   ensures [C07] internal colours: old(CPre(tree, node)) ==> CInv(tree)
 
 //@ func Tree.insertCase3
 //@   requires Shape(tree) && node.tr == tree && node.Parent != nil && !node.Parent.color && tree.Root.color
 //@   modifies tree.Root
-//@   modifies each x like tree.Root where x.tr == tree : x.Left, x.Right, x.Parent, x.a, x.b, x.color
-//@   ensures Shape(tree) && Same(tree) && RootBlack(tree)
+//@   modifies each x like tree.Root where x.tr == tree : x.Left, x.Right, x.Parent, x.a, x.b, x.color, x.bh
+//@   ensures Shape(tree)
+//@   ensures same: Same(tree)
+//@   ensures rootblack: RootBlack(tree)
+//@   at before insertCase1#1: node.Parent.bh := node.Parent.bh + 1
+//@   at before insertCase1#1: uncle.bh := uncle.bh + 1
+//@   focus post:colours* : pre:*, Tree.rotate*#*:same, Tree.rotate*#*:samecol, Tree.rotate*#*:4, Tree.rotate*#*:5, Tree.rotate*#*:others, Tree.rotate*#*:parent, Tree.insertCase*#*:colours, Tree.insertCase*#*:same
+//@   ensures [C07] internal colours: old(CPre(tree, node)) ==> CInv(tree)
 
 //@ func Tree.insertCase4
 //@   requires Shape(tree) && node.tr == tree && node.Parent != nil && !node.Parent.color && tree.Root.color
 //@   modifies tree.Root
-//@   modifies each x like tree.Root where x.tr == tree : x.Left, x.Right, x.Parent, x.a, x.b, x.color
-//@   ensures Shape(tree) && Same(tree) && RootBlack(tree)
+//@   modifies each x like tree.Root where x.tr == tree : x.Left, x.Right, x.Parent, x.a, x.b, x.color, x.bh
+//@   ensures Shape(tree)
+//@   ensures same: Same(tree)
+//@   ensures rootblack: RootBlack(tree)
+//@   focus post:colours* : pre:*, Tree.rotate*#*:same, Tree.rotate*#*:samecol, Tree.rotate*#*:4, Tree.rotate*#*:5, Tree.rotate*#*:others, Tree.rotate*#*:parent, Tree.insertCase*#*:colours, Tree.insertCase*#*:same
+//@   ensures [C07] internal colours: old(CPre(tree, node) && Blk(Uncle(node))) ==> CInv(tree)
 
 //@ func Tree.insertCase5
 //@   requires Shape(tree) && node.tr == tree && node.Parent != nil && node.Parent.Parent != nil && tree.Root.color
 //@   requires (node == node.Parent.Left && node.Parent == node.Parent.Parent.Left) || (node == node.Parent.Right && node.Parent == node.Parent.Parent.Right)
 //@   modifies tree.Root
-//@   modifies each x like tree.Root where x.tr == tree : x.Left, x.Right, x.Parent, x.a, x.b, x.color
-//@   ensures Shape(tree) && Same(tree) && RootBlack(tree)
+//@   modifies each x like tree.Root where x.tr == tree : x.Left, x.Right, x.Parent, x.a, x.b, x.color, x.bh
+//@   ensures Shape(tree)
+//@   ensures same: Same(tree)
+//@   ensures rootblack: RootBlack(tree)
+//@   at entry: node.Parent.bh := node.Parent.bh + 1
+//@   at entry: node.Parent.Parent.bh := node.Parent.Parent.bh - 1
+//@   focus post:colours* : pre:*, Tree.rotate*#*:same, Tree.rotate*#*:samecol, Tree.rotate*#*:4, Tree.rotate*#*:5, Tree.rotate*#*:others, Tree.rotate*#*:parent, Tree.insertCase*#*:colours, Tree.insertCase*#*:same
+//@   ensures [C07] internal colours: old(CPre(tree, node) && !node.Parent.color && node.Parent.Parent.color && Blk(Uncle(node))) ==> CInv(tree)
 
 //@ -- Put: insert or replace. pnew (ghost result) is the position of the entry for `key` afterwards.
 //@ func Tree.Put
 //@   requires Inv(tree)
 //@   modifies tree.Root, tree.size, tree.n, tree.nodes, tree.rank
-//@   modifies each x like tree.Root where x.tr == tree : x.Left, x.Right, x.Parent, x.a, x.b, x.color, x.Key, x.Value, x.pos
+//@   modifies each x like tree.Root where x.tr == tree : x.Left, x.Right, x.Parent, x.a, x.b, x.color, x.Key, x.Value, x.pos, x.bh
 //@   ghostvar pnew := 0
 //@   ghostvar qpos := 0
 //@   ghostresult pnew int
@@ -355,16 +400,30 @@ package redblacktree
 //@     && (forall i :: pnew < i && i < tree.size ==> tree.nodes[i] == old(tree.nodes[i-1]) && KeyAt(tree, i) == old(KeyAt(tree, i-1)) && ValAt(tree, i) == old(ValAt(tree, i-1)))
 //@   ensures [C01] map: forall k like key :: (Has(tree, k) <==> old(Has(tree, k)) || tree.Comparator(k, key) == 0)
 //@     && (tree.Comparator(k, key) == 0 ==> Val(tree, k) == value) && (tree.Comparator(k, key) != 0 && old(Has(tree, k)) ==> Val(tree, k) == old(Val(tree, k)))
+//@   -- the new entry's neighbours in the shifted sequence (guides the proof that the keys stay strictly ascending)
+//@   assert before insertCase1#1: forall i :: 0 <= i && i < pnew ==> tree.Comparator(KeyAt(tree, i), key) < 0
+//@   assert before insertCase1#1: forall i :: pnew < i && i < tree.n ==> tree.Comparator(key, KeyAt(tree, i)) < 0
+//@   assert before insertCase1#1: KeyAt(tree, pnew) == key && tree.n == old(tree.n) + 1
+//@   assert before insertCase1#1: old(CInv(tree)) ==> CPre(tree, arg1)
+//@   ensures [C07] internal colours: old(CInv(tree)) ==> CInv(tree)
+//@   focus post:1.* : pre:*, loop1:inv:*, lemma:*#1, lemma:*#2, lemma:*#3, Tree.insertCase1#1:1, Tree.insertCase1#1:same, Tree.insertCase1#1:rootblack
+//@   focus post:at* : pre:*, loop1:inv:*, Tree.insertCase1#1:1, Tree.insertCase1#1:same, Tree.insertCase1#1:rootblack
+//@   focus post:map* : pre:*, loop1:inv:*, Tree.insertCase1#1:1, Tree.insertCase1#1:same, Tree.insertCase1#1:rootblack
+//@   focus post:inserted* : pre:*, loop1:inv:*, Tree.insertCase1#1:1, Tree.insertCase1#1:same, Tree.insertCase1#1:rootblack
+//@   focus post:replaced* : pre:*, loop1:inv:*, Tree.insertCase1#1:1, Tree.insertCase1#1:same, Tree.insertCase1#1:rootblack
+//@   focus pre@call:Tree.insertCase1#1:* : pre:*, loop1:inv:*
+//@   focus post:colours* : pre:*, loop1:inv:*, lemma:*, Tree.insertCase1#1:colours, Tree.insertCase1#1:same
+//@   focus lemma:before-Tree.insertCase1#1#* : pre:*, loop1:inv:*, lemma:*#1, lemma:*#2, lemma:*#3
 //@   loop 1:
 //@     invariant (loop ==> Inv(tree)) && tree.Comparator == old(tree.Comparator) && tree.size == old(tree.size) && tree.n == old(tree.n) && tree.nodes == old(tree.nodes) && tree.rank == old(tree.rank) && tree.Root == old(tree.Root) && tree.Root != nil
-//@     invariant forall x like tree.Root :: !fresh(x) ==> x.Key == old(x.Key) && x.Value == old(x.Value) && x.color == old(x.color) && x.Parent == old(x.Parent) && x.tr == old(x.tr) && x.pos == old(x.pos) && x.a == old(x.a) && x.b == old(x.b)
+//@     invariant forall x like tree.Root :: !fresh(x) ==> x.Key == old(x.Key) && x.Value == old(x.Value) && x.color == old(x.color) && x.Parent == old(x.Parent) && x.tr == old(x.tr) && x.pos == old(x.pos) && x.a == old(x.a) && x.b == old(x.b) && x.bh == old(x.bh)
 //@       && (x != node || loop ==> x.Left == old(x.Left) && x.Right == old(x.Right))
 //@     invariant node != nil && node.tr == tree && !fresh(node)
 //@     invariant forall x like tree.Root :: fresh(x) ==> x.tr == nil
 //@     invariant forall i :: 0 <= i && i < node.a ==> tree.Comparator(key, tree.nodes[i].Key) > 0
 //@     invariant forall i :: node.b < i && i < tree.size ==> tree.Comparator(key, tree.nodes[i].Key) < 0
 //@     invariant !loop ==> fresh(insertedNode) && insertedNode != nil && insertedNode.Key == key && insertedNode.Value == value && !insertedNode.color && insertedNode.Left == nil && insertedNode.Right == nil && insertedNode.Parent == nil
-//@       && insertedNode.tr == nil
+//@       && insertedNode.tr == nil && insertedNode.bh == 0
 //@     invariant !loop ==> (node.Left == insertedNode && old(node.Left) == nil && node.Right == old(node.Right) && tree.Comparator(key, node.Key) < 0)
 //@       || (node.Right == insertedNode && old(node.Right) == nil && node.Left == old(node.Left) && tree.Comparator(key, node.Key) > 0)
 //@     decreases ite(loop, node.b - node.a + 2, 0)
@@ -409,13 +468,15 @@ package redblacktree
 //@ func Tree.FromJSON
 //@   requires Inv(tree)
 //@   modifies tree.Root, tree.size, tree.n, tree.nodes, tree.rank
-//@   modifies each x like tree.Root where x.tr == tree : x.Left, x.Right, x.Parent, x.a, x.b, x.color, x.Key, x.Value, x.pos, x.tr
+//@   modifies each x like tree.Root where x.tr == tree : x.Left, x.Right, x.Parent, x.a, x.b, x.color, x.Key, x.Value, x.pos, x.tr, x.bh
 //@   ensures [C12 C17] Inv(tree) && tree.Comparator == old(tree.Comparator) && (result == nil <==> jobj_kind(data, argof(tree.Comparator, 0), tree.Root.Value) >= 2)
 //@   ensures [C12] atomic: result != nil ==> tree.size == old(tree.size) && (forall i :: 0 <= i && i < tree.size ==> KeyAt(tree, i) == old(KeyAt(tree, i)) && ValAt(tree, i) == old(ValAt(tree, i)))
 //@   ensures [C11 C12] loaded-all: jobj_kind(data, argof(tree.Comparator, 0), tree.Root.Value) == 3 ==> (forall k like argof(tree.Comparator, 0) :: jobj_has(data, k, tree.Root.Value) ==> Has(tree, k))
 //@   ensures [C11 C12] loaded-only: jobj_kind(data, argof(tree.Comparator, 0), tree.Root.Value) == 3 ==> (forall i :: 0 <= i && i < tree.size ==> jobj_has(data, KeyAt(tree, i), tree.Root.Value) && ValAt(tree, i) == jobj_val(data, KeyAt(tree, i), tree.Root.Value))
 //@   ensures [C12] null: jobj_kind(data, argof(tree.Comparator, 0), tree.Root.Value) == 2 ==> tree.size == 0
+//@   ensures [C07] internal colours: old(CInv(tree)) ==> CInv(tree)
 //@   loop 1:
+//@     invariant CInv(tree)
 //@     invariant Inv(tree) && tree.Comparator == old(tree.Comparator) && err == nil && jobj_kind(data, argof(tree.Comparator, 0), tree.Root.Value) >= 2
 //@     invariant jobj_kind(data, argof(tree.Comparator, 0), tree.Root.Value) == 3 ==> elements != nil && (forall k like argof(tree.Comparator, 0) :: has(elements, k) <==> jobj_has(data, k, tree.Root.Value)) && (forall k like argof(tree.Comparator, 0) :: has(elements, k) ==> elements[k] == jobj_val(data, k, tree.Root.Value))
 //@     invariant jobj_kind(data, argof(tree.Comparator, 0), tree.Root.Value) == 2 ==> elements == nil && tree.size == 0
@@ -427,12 +488,13 @@ package redblacktree
 //@ func Tree.UnmarshalJSON
 //@   requires Inv(tree)
 //@   modifies tree.Root, tree.size, tree.n, tree.nodes, tree.rank
-//@   modifies each x like tree.Root where x.tr == tree : x.Left, x.Right, x.Parent, x.a, x.b, x.color, x.Key, x.Value, x.pos, x.tr
+//@   modifies each x like tree.Root where x.tr == tree : x.Left, x.Right, x.Parent, x.a, x.b, x.color, x.Key, x.Value, x.pos, x.tr, x.bh
 //@   ensures [C12 C17] Inv(tree) && tree.Comparator == old(tree.Comparator) && (result == nil <==> jobj_kind(bytes, argof(tree.Comparator, 0), tree.Root.Value) >= 2)
 //@   ensures [C12] atomic: result != nil ==> tree.size == old(tree.size) && (forall i :: 0 <= i && i < tree.size ==> KeyAt(tree, i) == old(KeyAt(tree, i)) && ValAt(tree, i) == old(ValAt(tree, i)))
 //@   ensures [C11 C12] loaded-all: jobj_kind(bytes, argof(tree.Comparator, 0), tree.Root.Value) == 3 ==> (forall k like argof(tree.Comparator, 0) :: jobj_has(bytes, k, tree.Root.Value) ==> Has(tree, k))
 //@   ensures [C11 C12] loaded-only: jobj_kind(bytes, argof(tree.Comparator, 0), tree.Root.Value) == 3 ==> (forall i :: 0 <= i && i < tree.size ==> jobj_has(bytes, KeyAt(tree, i), tree.Root.Value) && ValAt(tree, i) == jobj_val(bytes, KeyAt(tree, i), tree.Root.Value))
 //@   ensures [C12] null: jobj_kind(bytes, argof(tree.Comparator, 0), tree.Root.Value) == 2 ==> tree.size == 0
+//@   ensures [C07] internal colours: old(CInv(tree)) ==> CInv(tree)
 
 //@ -- New: the built-in ordering of an ordered key type is a strict weak order (A-STD: cmp.Compare)
 //@ func New
